@@ -71,8 +71,9 @@ theorem cvrptw_window (i : In) (c : Cond i) : WindowOk i (window i) := by
   -- integer facts about the window
   have key : i.d / (i.S : Int) ≤ (window i).1 ∧ (window i).1 < (window i).2 ∧
       i.d / (i.S : Int) + 1 ≤ (window i).2 ∧ (window i).2 ≤ upper i / (i.S : Int) := by
+    have hrep : Params.genCvrptwRepair = (-1, 1) := by decide   -- obligation on the extracted repair offsets
     unfold window
-    simp only [hdist, upperFloor, hceil]
+    simp only [hdist, upperFloor, hceil, hrep]
     generalize scaled i i.p1 = a at *
     generalize scaled i i.p2 = b at *
     generalize i.d / (i.S : Int) = A at *
